@@ -1274,9 +1274,12 @@ impl Runner {
             return;
         }
         self.tick_gap().await;
-        let (na, id, pi) = self.w.pending_app_reqs.remove(idx % self.w.pending_app_reqs.len());
+        // one response in four answers a request a second time (the peer re-sent it, the local record
+        // changed in between, ...): the entry stays in the list, the content differs
+        let k = idx % self.w.pending_app_reqs.len();
+        let (na, id, pi) = if rng.chance(1, 4) { self.w.pending_app_reqs[k].clone() } else { self.w.pending_app_reqs.remove(k) };
         let body = match multi % 3 {
-            0 => ResponseBody::Pong { enr_seq: 3, ip: IpAddr::V4(Ipv4Addr::new(10, 2, 0, 1)), port: NonZeroU16::new(9000).unwrap() },
+            0 => ResponseBody::Pong { enr_seq: 3 + rng.below(4), ip: IpAddr::V4(Ipv4Addr::new(10, 2, 0, 1)), port: NonZeroU16::new(9000).unwrap() },
             1 => ResponseBody::Nodes { total: 1, nodes: vec![self.w.peers[pi].enrs[0].clone()] },
             _ => ResponseBody::Talk { response: rng.bytes(5) },
         };
